@@ -55,7 +55,7 @@ Definition good_history : list event :=
   [ ERun 0 (FResp [kA] [sg tag_inj kA]) no_faults;
     ERun 0 (fetch_with tag_inj kB) no_faults;
     ERun (10 * day) (fetch_with tag_inj kB) (mk_faults false TROk false true);
-    ECrash (20 * day) (fetch_with tag_inj kB) no_faults 1 [kA] TROk;
+    ECrash (20 * day) (fetch_with tag_inj kB) no_faults 1 [kA] TROk false;
     ERun (31 * day) (fetch_with tag_inj kB) no_faults ].
 Example new_key_30d_example :
   mono 0 good_history /\
